@@ -290,7 +290,11 @@ class Generator:
 				self.toggles[toggle_key] = not self.toggles.get(toggle_key, False)
 				present = self.toggles[toggle_key]
 				self.note(f'cond:{model.name}.{field.name}:{"present" if present else "absent"}')
-				members[field.name] = self.member(model, field, by_name, depth, nonempty=True) if present else None
+				# an array guarded by a sentinel other than 0 on its own size member (NEM parent_name: absent <-> size 0xFFFFFFFF) may be
+				# present AND empty; where the sentinel is 0, or presence is plain truthiness, present means non-empty
+				may_be_empty = kind(field.field_type) == 'Array' and isinstance(conditional.value, int) and conditional.value != 0 \
+					and conditional.operation == 'not equals' and bound_field(model, condition_field) is not None
+				members[field.name] = self.member(model, field, by_name, depth, nonempty=not may_be_empty) if present else None
 			else:
 				condition_model = self.net.by_name.get(condition_field.field_type) if isinstance(condition_field.field_type, str) else None
 				actual = members[condition_field.name]
